@@ -45,15 +45,15 @@ def gen_bigint_case(rng):
     return dict(cols={'big': col}, cons={'big': cs}, eps=rng.choice([0, None, 0.01]), strict=rng.random() < 0.5, report='all')
 
 
-def run_impl(case):
+def run_impl(case, repair=False, frame=None):
     from tdda.constraints import verify_df
-    df = C.frame_of(case['cols'])
+    df = C.frame_of(case['cols']) if frame is None else frame
     d = {'fields': {nm: {k: C.json_constraint(k, s) for k, s in cs.items()}
                     for nm, cs in case['cons'].items() if cs}}
     err = io.StringIO()
     with contextlib.redirect_stderr(err), contextlib.redirect_stdout(err):
         v = verify_df(df.copy(), d, epsilon=case['eps'], type_checking='strict' if case['strict'] else 'sloppy',
-                      repair=False, report=case['report'])
+                      repair=repair, report=case['report'])
         fields = {}
         for nm, fr in v.fields.items():
             fields[nm] = ({k: (None if fr[k] is None else bool(fr[k])) for k in C.KINDS if k in fr},
@@ -186,16 +186,19 @@ def describe(case, nm=None, k=None):
     return d
 
 
-def null_constraint_independence(ctx, rng, case):
+def null_constraint_independence(ctx, rng, case, prefer=()):
     """Adding a null-valued constraint changes no other verdict."""
     names = [n for n in case['cons'] if case['cons'][n]]
     if not names:
         return
+    if prefer:
+        cand = [n for n in names if (case['cons'][n].get('type') or {}).get('value') in ('string', 'bool')]
+        names = cand or names
     nm = rng.choice(names)
     free = [k for k in C.KINDS if k not in case['cons'][nm]]
     if not free:
         return
-    k = rng.choice(free)
+    k = rng.choice([x for x in free if x in prefer] or free)
     try:
         base = run_impl(case)
         case2 = dict(case, cons={n: dict(cs) for n, cs in case['cons'].items()})
@@ -213,6 +216,39 @@ def null_constraint_independence(ctx, rng, case):
         ctx.fail(describe(case, nm, k), 'null-valued %s on %r reported %r, must be satisfied'
                  % (k, nm, ext['fields'].get(nm, ({},))[0].get(k)))
     ctx.count(('indep', repr(describe(case, nm, k))), True)
+    # ---- the same with the default repair=True: a null-valued constraint still changes no other verdict
+    try:
+        base_r = run_impl(case, repair=True)
+        ext_r = run_impl(case2, repair=True)
+    except Exception:
+        return
+    for n in base_r['fields']:
+        b = base_r['fields'][n][0]
+        e = {kk: vv for kk, vv in ext_r['fields'].get(n, ({}, 0, 0))[0].items() if not (n == nm and kk == k)}
+        if b != e:
+            ctx.fail(dict(describe(case, nm, k), repair=True),
+                     'with the default repair=True, adding null-valued %s to %r changed verdicts %r -> %r' % (k, nm, b, e))
+    # ---- repair=True with a bool type constraint on an integer column means: judged as the boolean column
+    for n, cs in case['cons'].items():
+        col = case['cols'].get(n)
+        if col is None or not cs or (cs.get('type') or {}).get('value') != 'bool' or col['type'] != 'int' \
+                or col['variant'] not in ('int64', 'int32', 'int8') or any(x is None for x in col['cells']):
+            continue
+        try:
+            fr = C.frame_of(case['cols'])
+            fr2 = fr.copy()
+            fr2[n] = fr2[n].astype(bool)
+            if any(case['cons'].get(m, {}).get('type', {}).get('value') in ('bool', 'string') for m in case['cons'] if m != n):
+                continue
+            a = run_impl(case, repair=True, frame=fr)
+            b2 = run_impl(case, repair=False, frame=fr2)
+        except Exception:
+            continue
+        ctx.bump('repair_bool_on_int')
+        if a['fields'].get(n) != b2['fields'].get(n):
+            ctx.fail(dict(describe(case, n, 'type'), repair=True),
+                     'repair=True with type bool on the integer column %r gives %r; the repaired (boolean) column gives %r'
+                     % (n, a['fields'].get(n), b2['fields'].get(n)))
 
 
 def run(ctx):
@@ -231,8 +267,12 @@ def run(ctx):
         for c in case['cols'].values():
             ctx.bump('col.' + c['type'] + '.' + c['variant'])
         check_case(ctx, case, mo)
-        if i % 6 == 0:
-            null_constraint_independence(ctx, rng, case)
+        # (more often where the repair step can come into play: a string or bool type constraint on a numeric column)
+        repairable = any((cs.get('type') or {}).get('value') in ('string', 'bool') and
+                         case['cols'].get(n_, {}).get('type') in ('int', 'real')
+                         for n_, cs in case['cons'].items() if cs)
+        if i % 6 == 0 or repairable:
+            null_constraint_independence(ctx, rng, case, prefer=('min', 'max') if repairable else ())
     ctx.sample(describe(cases[0]))
     ctx.sample(describe(cases[1]))
     ctx.cov['rule'] = ('frames of 1-3 abstract columns (bool/int/real/string/date x dtype variants, 0-9 rows, null '
